@@ -100,7 +100,7 @@ struct World {
     }
 };
 
-enum Kind { NEW, ADD, ADD4, MERGE, ASSIGN, MOVECTOR, POP, CLEAR, DESTROY, AWAIT, AWAITSELF, AWAITSELF1, CSP, CSPNEST, TPEEK, NEWT, TADD, TMOVE, TTOVOID, TPOP, TDESTROY, TAWAIT };
+enum Kind { NEW, ADD, ADD4, MERGE, ASSIGN, MOVECTOR, POP, CLEAR, DESTROY, AWAIT, AWAITSELF, AWAITSELF1, CSP, CSPNEST, DESTROYUNW, TPEEK, NEWT, TADD, TMOVE, TTOVOID, TPOP, TDESTROY, TAWAIT };
 struct OpDef {
     Kind k;
     int a, b;
@@ -125,6 +125,7 @@ static void build_ops(int nv) {
         g_ops.push_back({AWAIT, i, -1, S("await", i)});
         g_ops.push_back({AWAITSELF, i, -1, S("awaitself-last", i)});
         g_ops.push_back({AWAITSELF1, i, -1, S("awaitself-first", i)});
+        g_ops.push_back({DESTROYUNW, i, -1, S("destroy-during-stack-unwinding", i)});
         g_ops.push_back({CSP, i, -1, S("create_suspend_point(clear)", i)});
         g_ops.push_back({CSPNEST, i, -1, S("create_suspend_point(nested-queue(clear))", i)});
         for (int j = 0; j < nv; j++)
@@ -159,7 +160,8 @@ static bool enabled(const World &w, const OpDef &o, int maxh) {
         case AWAITSELF:
         case AWAITSELF1:
         case CSP:
-        case CSPNEST: return w.v[o.a].has_value();
+        case CSPNEST:
+        case DESTROYUNW: return w.v[o.a].has_value();
         case TPEEK: return w.t.has_value();
         case NEWT: return !w.t && w.live() < maxh;
         case TADD: return w.t.has_value() && w.live() < maxh;
@@ -202,6 +204,19 @@ static void apply(World &w, const OpDef &o) {
         case AWAITSELF1: {
             w.drivers.emplace_back(new int(0));
             drive_await_self_first(&*w.v[o.a], w.drivers.back().get()).h.resume();
+            break;
+        }
+        case DESTROYUNW: {
+            // the suspend point dies because an exception propagates through the scope that owns it
+            struct G {
+                std::optional<SP> *slot;
+                ~G() { slot->reset(); }
+            };
+            try {
+                G g{&w.v[o.a]};
+                throw 0;
+            } catch (int) {
+            }
             break;
         }
         case CSP: {
@@ -314,7 +329,10 @@ static uint64_t run_history(seqx::Runner &R, bool coro_mode, const std::vector<i
                 R.fail("sp/awaiting-coroutine-not-resumed-once", "driver coroutine #%zu (co_await on a suspend point) was resumed %d times after its await", i, *w.drivers[i]);
                 break;
             }
-        if (cocls::coro_queue::is_active()) R.fail("sp/queue-left-active", "coro_queue still active after the outermost activation returned");
+        if (cocls::coro_queue::is_active()) {
+            R.fail("sp/queue-left-active", "coro_queue still active after the outermost activation returned");
+            seq_reset_thread_state();
+        }
     }
     if (!R.case_fail && seqx::live_allocs() != base) R.fail("sp/allocation-balance", "%ld allocations not released (leaked frame or handle array)", (long)(seqx::live_allocs() - base));
     R.outcome(key);
